@@ -17,7 +17,7 @@ func routeSetting(cfg *ChainCfg, r *ChainReq) int {
 	if r.Target == "post" && cfg.ReuseBuilder && cfg.RouteEncPost != 0 {
 		return cfg.RouteEncPost
 	}
-	if r.Target == "route" && cfg.RouteEncLate != 0 {
+	if (r.Target == "route" || r.Target == "twin") && cfg.RouteEncLate != 0 {
 		return cfg.RouteEncLate
 	}
 	return cfg.RouteEnc
@@ -30,7 +30,7 @@ func encodingEnabledFor(cfg *ChainCfg, r *ChainReq) bool {
 	if r.Target == "post" && cfg.ReuseBuilder && cfg.RouteEncPost != 0 {
 		return cfg.RouteEncPost == 1
 	}
-	if r.Target == "route" || r.Target == "post" || r.Target == "route2" {
+	if isRouted(r.Target) {
 		switch routeSetting(cfg, r) {
 		case 1:
 			return true
